@@ -464,6 +464,50 @@ class FakeSock:
             self.closed = True
             SIM.ev("DEV-CLOSE", self.cid)
 
+    # the rest of the socket API a transport may reasonably use, with the real failure behaviour
+    def shutdown(self, how):
+        if self.closed:
+            raise OSError(9, "Bad file descriptor")
+        if self.writes_after_eof > 1:
+            raise OSError(107, "Transport endpoint is not connected")
+        self.eof = True
+
+    def send(self, d):
+        self.sendall(d)
+        return len(d)
+
+    def settimeout(self, t):
+        if self.closed:
+            raise OSError(9, "Bad file descriptor")
+
+    def gettimeout(self):
+        return 0.0
+
+    def setsockopt(self, *a):
+        if self.closed:
+            raise OSError(9, "Bad file descriptor")
+
+    def getsockopt(self, *a):
+        if self.closed:
+            raise OSError(9, "Bad file descriptor")
+        return 0
+
+    def getpeername(self):
+        if self.closed:
+            raise OSError(9, "Bad file descriptor")
+        return ("10.0.0.1", 5003)
+
+    def getsockname(self):
+        if self.closed:
+            raise OSError(9, "Bad file descriptor")
+        return ("10.0.0.2", 40000 + self.cid)
+
+    def __enter__(self):
+        return self
+
+    def __exit__(self, *a):
+        self.close()
+
     def poll(self):
         for item in list(self.pending):
             if item[0] <= SIM.now + 1e-9:
